@@ -350,6 +350,16 @@ def _resume(rep, model):
     def mlem(e, x, n):
         return [e.I.opsym('A', e.X, e.Y, True), x, e.vec('d', e.Y), n], {}
 
+    def osmlem_sens(e, x, n):
+        a, k = osmlem(e, x, n)
+        return a, {'sensitivities': [e.vec('s0', e.X), e.vec('s1', e.X)]}
+    osmlem_sens.tag = '[sensitivities given]'
+
+    def mlem_sens(e, x, n):
+        a, k = mlem(e, x, n)
+        return a, {'sensitivities': [e.vec('s', e.X)]}
+    mlem_sens.tag = '[sensitivities given]'
+
     def steepest(e, x, n):
         return [e.fun('f', e.X), x], {'line_search': Rat.var('step'),
                                       'maxiter': n}
@@ -366,6 +376,7 @@ def _resume(rep, model):
     cases = [(ITER, 'landweber', landweber), (ITER, 'kaczmarz', kaczmarz),
              (PGRAD, 'proximal_gradient', prox_grad),
              (STAT, 'osmlem', osmlem), (STAT, 'mlem', mlem),
+             (STAT, 'osmlem', osmlem_sens), (STAT, 'mlem', mlem_sens),
              (GRAD, 'steepest_descent', steepest),
              (ITER, 'landweber', with_proj(landweber)),
              (ITER, 'kaczmarz', with_proj(kaczmarz)),
@@ -373,15 +384,42 @@ def _resume(rep, model):
     for rel, name, mk in cases:
         fn = model.ctx.func(rel, name)
         for n, m in ((1, 1), (2, 1), (1, 2)):
-            tag = '%s%s[%d+%d]' % (name, '[projection]' if getattr(
-                mk, 'proj', False) else '', n, m)
+            tag = '%s%s%s[%d+%d]' % (name, '[projection]' if getattr(
+                mk, 'proj', False) else '', getattr(mk, 'tag', ''), n, m)
             try:
-                # n + m at once
+                # n + m at once; every vector handed in besides the iterate
+                # is watched: the solver must leave it as it was (R2i)
+                before = {}
+
                 def b_all(e):
                     x = e.vec('x', e.X)
                     a, k = mk(e, x, n + m)
-                    return a, k, {'x': x}
+                    watch = {'x': x}
+
+                    def visit(v, label):
+                        if isinstance(v, Vec) and v is not x:
+                            watch['in:' + label] = v
+                            before['in:' + label] = vs.freeze(v.val)
+                        elif isinstance(v, (list, tuple)):
+                            for i, z in enumerate(v):
+                                visit(z, '%s[%d]' % (label, i))
+                    for i, v in enumerate(a):
+                        visit(v, 'argument %d' % i)
+                    for kk, v in k.items():
+                        visit(v, kk)
+                    return a, k, watch
                 whole = run(model, rel, name, b_all)
+                changed = sorted(lbl[3:] for lbl, val in before.items()
+                                 if whole['final'].get(lbl) != val)
+                if changed:
+                    rep.violation(
+                        'R2i', name, '%s: the solver overwrites its input %s '
+                        '(a second call with the same objects continues '
+                        'from different data)' % (tag, ', '.join(changed)),
+                        rel, fn.lineno)
+                elif before:
+                    rep.holds('R2i', tag, '%d input vectors unchanged'
+                              % len(before))
 
                 # n, then m more, from the iterate alone
                 def b_split(e):
